@@ -69,11 +69,36 @@ CHECKS.update({
          PURE_NOTE, "§5 C35"),
 })
 
+CHECKS.update({
+ "C05": ("exploration", "runtime monitor over the real leaf prover / pinned verifier with a reference model of the public-input layout",
+         "Honest inputs of every depth 0..16 (real and dummy, boundary amounts and fees) are driven through WormholeProver::new/commit/prove and the keccak-pinned WormholeVerifier loaded from a fresh rebuild; the 21 public inputs are compared with the model's layout and parsed back by both parsers; malformed paths (depth 17..20, length mismatches, positions 4..255, 65536 positions) must give Err, never a panic or a proof.",
+         "Trusted base: plonky2 prover/verifier; expected statement values come from the independent leaf model.", "§5 C05"),
+ "C27": ("exploration", "runtime differential monitor: native Merkle verifier vs fold model vs leaf circuit (CSO)",
+         "Valid paths of depth 0..17 and every single corruption (leaf, sibling, position to any byte, root, lengths, non-canonical limbs, reordered siblings) are judged by verify_with_positions and by an independent fold model; from_unsorted must build verifying proofs with positions = sorted rank; the same paths inside otherwise-valid statements are judged by the real leaf circuit and must agree with the native verifier.",
+         CSO_NOTE, "§5 C27"),
+ "C32": ("exploration", "runtime string monitor over Debug renderings",
+         "For random and patterned private witnesses, {:?} and {:#?} of nine types (incl. a committed prover) are searched for decimal / hex / byte-list renderings of the secret, deposit account, transfer count, input amount, digest logs, siblings and positions (whole-token match for integers, whitespace-free substring match for byte strings >= 8 bytes).",
+         "Trusted base: the harness's rendering list (LE/BE, limbs, halves, hex with/without 0x, byte lists). A format not in the list (e.g. base64) would be missed.", "§5 C32"),
+ "C33": ("exploration", "runtime heap monitor: allocator-level scan of every freed / reallocated block for the live secret",
+         "Random call sequences over the whole secret-handling API run on threads whose allocator scans each block at dealloc and at (emulated moving) realloc for the secret's limbs; fresh blocks are zeroed and freed blocks wiped during a scan so residue cannot travel between blocks; only the two documented upstream pad10_to_rate buffers are exempt (exact whole-block match); Secret::new must zero the caller's buffer for valid and invalid values.",
+         "Trusted base: the harness allocator. Stack copies and plonky2-owned witness memory are outside the property's scope.", "§5 C33"),
+ "C10": ("exploration", "runtime oracle: hint-override adversary over wrapper and gadget circuits (CSO)",
+         "For fixed child public inputs every generator output of the private (N<=3/4) and public (M<=2/3) wrapper-only circuits and of the comparison / sorting gadget circuits is overridden (generic values, equality-hint flips, (lo,hi) p-aliases, limb carries, sampled pairs); every accepted effective override must leave all public inputs unchanged and no override may rescue a batch whose honest witness fails.",
+         CSO_NOTE, "§5 C10"),
+ "C30": ("exploration", "runtime oracle: gadget circuits vs integer comparison model, exhaustive for small widths, with hint overrides",
+         "is_const_less_than / enforce_target_less_than_const circuits for widths 1..6/8 with ALL constants and ALL values 0..2^w+3, and widths {16,31,32,33,48,62,63,64} with boundary constants/values; satisfiable <=> value < 2^w and output == (c < value); every generator is hint-overridden including the p-alias decomposition at width 64.",
+         CSO_NOTE, "§5 C30"),
+ "C31": ("exploration", "runtime oracle: sorting gadget circuit vs sort model, exhaustive small domain, with hint overrides",
+         "sort_digests4 circuits for n=1..3 over limbs {0,1,2^32-1,2^32,p-1} in the two most / least significant positions (exhaustive for n<=2, strided for n=3 in quick) and random lists with duplicates and near-duplicates up to n=8/64; output == ascending lexicographic sort; comparator flags, half splits and equality hints overridden.",
+         CSO_NOTE, "§5 C31"),
+})
+
 ENGINES = [
  {"name": "cso", "path": "harness/src/cso.rs", "serves_properties": ["C01","C02","C03","C04","C06","C07","C08","C09","C10","C11","C12","C13","C27","C30","C31","C36"],
   "kind_free_text": "constraint-satisfaction oracle: lenient witness generation + evaluation of every gate constraint with plonky2's own evaluators + confirmation by the real prover/verifier"},
  {"name": "leaf-model", "path": "harness/src/leaf.rs", "serves_properties": ["C01","C02","C03","C04","C05","C27"], "kind_free_text": "independent executable model of the leaf relation"},
  {"name": "pure-models", "path": "harness/src/pure.rs, harness/src/policy.rs", "serves_properties": ["C24","C25","C26","C28","C29","C35"], "kind_free_text": "reference models + catch_unwind + allocation counter over pure functions and entry points"},
+ {"name": "hints", "path": "harness/src/hints.rs", "serves_properties": ["C01","C02","C03","C04","C10","C30","C31"], "kind_free_text": "hint-override adversary: per-generator and pairwise overrides with semantic families"},
  {"name": "heapmon", "path": "harness/src/heapmon.rs", "serves_properties": ["C17","C25","C26","C28","C29","C33","C35"], "kind_free_text": "global-allocator wrapper: per-thread byte counter and secret scanner at dealloc/realloc"},
  {"name": "wrapper-models", "path": "harness/src/wrap.rs", "serves_properties": ["C06","C07","C08","C09","C12","C13","C36","C34"], "kind_free_text": "independent executable models of both aggregation wrappers; wrapper-only / full recursive circuit forms"},
 ]
